@@ -1604,6 +1604,10 @@ class ConfigList(UserList):
             finished = False
             while not finished:
                 idx += 1
+                if idx >= len(self.data):
+                    # The macro is not terminated with '@'... stop at the
+                    # end of the configuration
+                    break
                 cobj = self.data[idx]
                 # blank_line_keep for original ciscoconfpasre Github Issue #229
                 cobj.blank_line_keep = True
